@@ -511,8 +511,18 @@ func check(prop, tier string) int {
 				r, err := wk.run(ji, deadline)
 				if err != nil {
 					wk.stop()
+					fatal := wk.tail.fatal()
 					wk = nil
 					r = &jobResult{Job: jobs[ji].Name, Error: "worker died: " + err.Error()}
+					if prop == "C02" && fatal != "" {
+						// C02 is the claim that no input kills the process: a worker that the Go runtime stopped with a
+						// fatal error of the code under test (unbounded recursion, unsynchronised map access) while it fed
+						// this job's inputs to the real client is a counter-example, not a tool failure. Running out of
+						// memory is not in the list: that may be the harness.
+						r = &jobResult{Job: jobs[ji].Name, Kind: "enumeration", Violations: []violation{{Property: prop, Family: "process", Scenario: jobs[ji].Name,
+							Oracle: "process-dies-fatal-error", Msg: "the worker process running this job's inputs through the real client was stopped by the Go runtime: " + fatal,
+							Params: map[string]interface{}{"job": jobs[ji].Name}, Job: jobs[ji].Name, Tier: tier}}}
+					}
 				}
 				results[ji] = r
 			}
@@ -723,15 +733,56 @@ func runOut(bin string, args ...string) ([]byte, error) {
 // ---------------------------------------------------------------- workers
 
 type worker struct {
-	cmd *exec.Cmd
-	in  io.WriteCloser
-	out *bufio.Reader
+	cmd  *exec.Cmd
+	in   io.WriteCloser
+	out  *bufio.Reader
+	tail *tailBuf
+}
+
+// tailBuf keeps the first 16 KB a worker wrote to stderr after its latest "fatal error:" line (the Go runtime prints
+// that line first and the goroutine dump after it).
+type tailBuf struct {
+	mu  sync.Mutex
+	buf []byte
+}
+
+func (t *tailBuf) Write(p []byte) (int, error) {
+	t.mu.Lock()
+	defer t.mu.Unlock()
+	if len(t.buf) < 1<<16 {
+		t.buf = append(t.buf, p...)
+	} else if i := strings.Index(string(p), "fatal error:"); i >= 0 {
+		t.buf = append(t.buf[:0], p[i:]...)
+	}
+	return len(p), nil
+}
+
+// fatal returns the runtime's fatal-error line if it names a failure of the code under test.
+func (t *tailBuf) fatal() string {
+	t.mu.Lock()
+	defer t.mu.Unlock()
+	s := string(t.buf)
+	i := strings.LastIndex(s, "fatal error:")
+	if i < 0 {
+		return ""
+	}
+	line := s[i:]
+	if j := strings.IndexByte(line, '\n'); j >= 0 {
+		line = line[:j]
+	}
+	for _, k := range []string{"stack overflow", "concurrent map"} {
+		if strings.Contains(line, k) {
+			return line
+		}
+	}
+	return ""
 }
 
 func startWorker(bin, prop, tier string, seed int64) (*worker, error) {
 	cmd := exec.Command(bin, "-serve", "-prop", prop, "-tier", tier, "-seed", fmt.Sprint(seed))
 	cmd.Env = append(os.Environ(), "GOMAXPROCS=1", "GOMEMLIMIT=6GiB")
-	cmd.Stderr = os.Stderr
+	tail := &tailBuf{}
+	cmd.Stderr = io.MultiWriter(os.Stderr, tail)
 	in, err := cmd.StdinPipe()
 	if err != nil {
 		return nil, err
@@ -743,7 +794,7 @@ func startWorker(bin, prop, tier string, seed int64) (*worker, error) {
 	if err := cmd.Start(); err != nil {
 		return nil, err
 	}
-	return &worker{cmd: cmd, in: in, out: bufio.NewReaderSize(op, 1<<20)}, nil
+	return &worker{cmd: cmd, in: in, out: bufio.NewReaderSize(op, 1<<20), tail: tail}, nil
 }
 
 func (w *worker) stop() {
